@@ -1,7 +1,8 @@
 // crosscheck validates the one modelling assumption of the C18/C19 fake transport against the
 // implementation it stands for, and replays a sample of C18 cases (including the recorded finding)
 // on the UNINSTRUMENTED library with a real net/http transport and a loopback httptest server.
-// It prints one JSON object; "disagreements" must be empty.
+// It prints one JSON object; "disagreements" (infrastructure) must be empty; "violations" are cases in
+// which the property itself fails on the real stack.
 package main
 
 import (
@@ -29,7 +30,8 @@ type key string
 type result struct {
 	Cases         int      `json:"cases"`
 	Agreements    int      `json:"agreements"`
-	Disagreements []string `json:"disagreements"`
+	Disagreements []string `json:"disagreements"` // the fake transport's modelling assumption does not hold on the real one
+	Violations    []string `json:"violations"`    // the property itself fails on the real stack
 	Notes         []string `json:"notes"`
 }
 
@@ -73,8 +75,10 @@ func main() {
 		res.Cases++
 		if ok {
 			res.Agreements++
-		} else {
+		} else if strings.HasPrefix(name, "net/http:") {
 			res.Disagreements = append(res.Disagreements, name+": "+detail)
+		} else {
+			res.Violations = append(res.Violations, name+": "+detail)
 		}
 	}
 
